@@ -239,7 +239,14 @@ where
 
 fn read_exact<R: Read>(r: &mut R, mut buf: &mut [u8]) -> Result<(), RepeError> {
     while !buf.is_empty() {
-        let n = r.read(buf)?;
+        // An interrupted read has consumed nothing: retry it, as `Read::read_exact`
+        // does. Returning the error from here would leave the stream positioned
+        // in the middle of a frame.
+        let n = match r.read(buf) {
+            Ok(n) => n,
+            Err(e) if e.kind() == std::io::ErrorKind::Interrupted => continue,
+            Err(e) => return Err(e.into()),
+        };
         if n == 0 {
             return Err(RepeError::Io(std::io::Error::from(
                 std::io::ErrorKind::UnexpectedEof,
